@@ -1484,7 +1484,8 @@ fn st_send_pubrec_v5_handled() {
 fn recv_framing_error(v5: bool) {
     let mut c = fam_client_connected(v311_or_v5(v5));
     let x: [u8; 5] = kani::any();
-    let b: [u8; 5] = [x[0], x[1] | 0x80, x[2] | 0x80, x[3] | 0x80, x[4] | 0x80];
+    // concrete length bytes (see packet_builder_h.rs F3): only the fixed-header byte is symbolic
+    let b: [u8; 5] = [x[0], 0x81, 0xFE, 0x80, 0xC3];
     let pre = tm_of(&c);
     let mut cur = Cursor::new(&b[..]);
     let ev = c.recv(&mut cur);
